@@ -52,7 +52,7 @@ func c02Cases(tier string, seed uint64, flavor string) []lib.Case {
 	}
 	// one deterministic case per kind-swap class (alone and combined with a rename source),
 	// so that every known finding of this class is observed on every run
-	for ks := 1; ks <= 10; ks++ {
+	for ks := 1; ks <= 11; ks++ {
 		for _, ren := range []bool{false, true} {
 			o := lib.GenOpts{PathFocus: true, MinFiles: 2, MaxFiles: 3, ForceKindSwap: ks, ForceRename: ren}
 			s := c02Spec{PairSeed: lib.Mix(seed, 22, uint64(ks)), Opts: o, Comp: lib.Comp{Algo: "none"}, Repeats: rep}
